@@ -3,6 +3,9 @@ import Uquic.Model.H3.Fields
 import Uquic.Model.H3.Writer
 import Uquic.Model.H3.Glue
 import Uquic.Model.H3.ReqLock
+import Uquic.Model.H3.ReqLockFault
+import Uquic.Model.H3.TrailerGate
+import Uquic.Model.H3.RespFault
 import Uquic.Spec.H3FieldsWF
 import Uquic.Spec.H3FieldsMon
 import Uquic.Spec.H3GlueMon
@@ -117,11 +120,31 @@ structure PMsg where
   flagged : List (List Nat)
   trl : Option (List (List Nat × List Nat))
   tflagged : List (List Nat)
+  /-- frames behind the trailer section: a further field section / a DATA frame -/
+  tail : List (Sum (List (List Nat × List Nat)) Nat) := []
+  /-- the first `nest` of them are the payload of the (oversized) trailer HEADERS frame -/
+  nest : Nat := 0
+
+/-- split at every occurrence of `sep` -/
+def splitAtWord (sep : String) : List String → List (List String)
+  | [] => [[]]
+  | w :: ws =>
+    match splitAtWord sep ws with
+    | [] => [[]]
+    | g :: gs => if w == sep then [] :: g :: gs else (w :: g) :: gs
+
+def parseTailItem (g : List String) : Option (Sum (List (List Nat × List Nat)) Nat × List (List Nat)) :=
+  match g with
+  | "h" :: toks => let (fs, fl) := parseFieldToks toks; some (.inl fs, fl)
+  | ["d", n] => some (.inr (n.toNat?.getD 0), [])
+  | _ => none
 
 def parsePart (p : String) : PMsg :=
   let w := words p
   let pre := w.takeWhile (· != "f")
-  let rest := (w.dropWhile (· != "f")).drop 1
+  let all := (w.dropWhile (· != "f")).drop 1
+  let rest := all.takeWhile (· != "x")
+  let items := ((splitAtWord "x" (all.dropWhile (· != "x"))).drop 1).filterMap parseTailItem
   let ftoks := rest.takeWhile (· != "t")
   let hasT := rest.contains "t"
   let ttoks := (rest.dropWhile (· != "t")).drop 1
@@ -129,7 +152,8 @@ def parsePart (p : String) : PMsg :=
   let (ts, tfl) := parseFieldToks ttoks
   let d := intOf (argOf pre "d")
   { enc := intOf (argOf pre "e"), qerr := argOf pre "q" == "1", dlen := if d < 0 then none else some d.toNat,
-    tenc := intOf (argOf pre "te"), fs := fs, flagged := fl, trl := if hasT then some ts else none, tflagged := tfl }
+    tenc := intOf (argOf pre "te"), fs := fs, flagged := fl, trl := if hasT then some ts else none,
+    tflagged := tfl ++ items.flatMap (·.2), tail := items.map (·.1), nest := natOfS (argOf pre "nest") }
 
 def lowerB (b : Nat) : Nat := if 65 ≤ b && b ≤ 90 then b + 32 else b
 def hasCL (fs : List (List Nat × List Nat)) : Bool := fs.any (fun (f : List Nat × List Nat) => f.1.map lowerB == nContentLength)
@@ -140,12 +164,26 @@ def toMsg (lim : Int) (m : PMsg) : Msg :=
 /-- text after `key=` up to the next space -/
 def wordArg (s key : String) : String := argOf (words s) key
 
-def bodyText (b : BodyObs) : String :=
-  s!" b={b.bytes} rerr={if b.failed then 1 else 0} t={fmtHdrs b.trailers}"
+open Uquic.Model.H3.TrailerGate in
+def tailEvents (m : PMsg) : List Ev :=
+  m.tail.map fun it => match it with
+    | .inl fs => Ev.headers 0 fs   -- the frame length of a later section never matters: the gate is closed
+    | .inr n => Ev.data n
+
+open Uquic.Model.H3.TrailerGate in
+/-- io.ReadAll, `again` further io.ReadAll calls, then the trailers (Model/H3/TrailerGate.lean) -/
+def readMsg (lim : Int) (m : PMsg) (again : Nat) : MsgObs :=
+  readMessage .markFirst (extOf m.tflagged) lim (events m.dlen (m.trl.map fun t => (m.tenc, t)) (tailEvents m)) again
+
+def bodyText (b : Uquic.Model.H3.TrailerGate.MsgObs) (again : Bool) : String :=
+  s!" b={b.bytes} rerr={if b.failed then 1 else 0}" ++ (if again then s!" again={b.againBytes}" else "") ++ s!" t={fmtHdrs b.trailers}"
+
+def againOf (implView : String) : Option Nat :=
+  if (implView.splitOn " again=").length == 2 then (argOf (words implView) "again").toNat? else none
 
 /-! ## srv -/
 
-def srvPart (lim : Int) (m : PMsg) (impl : String) : String × List String × List Fail :=
+def srvPart (lim : Int) (rr : Nat) (m : PMsg) (impl : String) : String × List String × List Fail :=
   let implView := (splitFirst impl " h=").2
   let handled := implView != "-" && implView != ""
   -- url.ParseRequestURI is external: plain paths are accepted; for any other path the answer is taken
@@ -153,22 +191,28 @@ def srvPart (lim : Int) (m : PMsg) (impl : String) : String × List String × Li
   let implRejected := !handled
   let urlOK := fun (p : List Nat) => plainPath p || !implRejected
   let out := handleRequestStream (extOf m.flagged) urlOK lim m.enc m.fs m.qerr
-  let body := readBody (extOf m.tflagged) lim m.dlen (m.trl.map fun t => (m.tenc, t))
+  let body := readMsg lim m rr
   let showBody := !hasCL m.fs
   let model := match out with
     | .reject431 c => s!"st=431 rd=eof wr=stop:{c} h=-"
     | .reset c => s!"st=- rd=rst:{c} wr=stop:{c} h=-"
     | .handler req =>
       let wr := if body.failed then s!"stop:{Uquic.Gen.H3Fields.ErrCodeNoError}" else "open"
-      s!"st=200 rd=eof wr={wr} h={fmtReqRes (.ok req)}" ++ (if showBody then bodyText body else "")
+      (if rr > 0 then "st=* rd=* wr=*" else s!"st=200 rd=eof wr={wr}") ++
+        s!" h={fmtReqRes (.ok req)}" ++ (if showBody then bodyText body (rr > 0) else "")
   let tags := match out with
     | .reject431 _ => [if m.enc > lim then "srv:431-frame" else "srv:431-decoded"]
     | .reset c => [s!"srv:reset-{c}"]
-    | .handler _ => ["srv:handler"] ++ (if m.trl.isSome then [if body.failed then "srv:trailers-bad" else "srv:trailers-ok"] else [])
+    | .handler _ => ["srv:handler"] ++ (if m.trl.isSome then [if body.failed then "srv:trailers-bad" else "srv:trailers-ok"] else []) ++
+        (if !m.tail.isEmpty then ["srv:tail"] else []) ++ (if m.nest > 0 then ["srv:nested"] else []) ++ (if rr > 0 then ["srv:read-again"] else [])
   let obs : SrvObs := { status := wordArg impl "st", rd := wordArg impl "rd", wr := wordArg impl "wr", handled := handled, view := implView }
-  let fails := serverMonitors (toMsg lim m) obs ++
-    trailerMonitors "request" lim (m.trl.map fun t => (m.tenc, t)) (handled && showBody && (implView.splitOn " b=").length == 2)
-      (wordArg implView "rerr" == "1") (wordArg implView "t")
+  let bodyShown := handled && showBody && (implView.splitOn " b=").length == 2
+  -- a consumer that read on: what the raw peer saw of the exchange is not reported (`*`)
+  let masked := handled && wordArg impl "st" == "*"
+  let fails := (if masked then [] else serverMonitors (toMsg lim m) obs) ++
+    trailerMonitors "request" lim (m.trl.map fun t => (m.tenc, t)) bodyShown
+      (wordArg implView "rerr" == "1") (wordArg implView "t") (!m.tail.isEmpty) ++
+    stickyMonitors "request" (m.trl.map fun t => (m.tenc, t)) bodyShown (againOf implView) (wordArg implView "t")
   (model, tags, fails)
 
 /-! ## cli -/
@@ -183,37 +227,43 @@ def statusShown (fs : List (List Nat × List Nat)) : Bool :=
   | some f => f.2 == B "200" || f.2 == B "404" || f.2 == B "500"
   | none => false
 
-def cliPart (lim : Int) (m : PMsg) (impl : String) : String × List String × List Fail :=
+def cliPart (lim : Int) (rr : Nat) (m : PMsg) (impl : String) : String × List String × List Fail :=
   if unsupportedResponse m.fs then ("stop=- r=unsupported", ["cli:unsupported"], [])
   else
     let implView := (splitFirst impl " r=").2
     let out := readResponse (extOf m.flagged) lim m.enc m.fs m.qerr
-    let body := readBody (extOf m.tflagged) lim m.dlen (m.trl.map fun t => (m.tenc, t))
+    let body := readMsg lim m rr
     let showBody := !hasCL m.fs && statusShown m.fs
     let model := match out with
       | .failed c => s!"stop=stop:{c} r=E"
       | .response r =>
-        let stop := if !showBody then "*" else if body.failed then s!"stop:{Uquic.Gen.H3Fields.ErrCodeRequestCanceled}" else "open"
-        s!"stop={stop} r={fmtRspRes (.ok r)}" ++ (if showBody then bodyText body else "")
+        let stop := if !showBody || rr > 0 then "*" else if body.failed then s!"stop:{Uquic.Gen.H3Fields.ErrCodeRequestCanceled}" else "open"
+        s!"stop={stop} r={fmtRspRes (.ok r)}" ++ (if showBody then bodyText body (rr > 0) else "")
     let tags := match out with
       | .failed c => [s!"cli:failed-{c}"]
-      | .response _ => ["cli:response"] ++ (if m.trl.isSome && showBody then [if body.failed then "cli:trailers-bad" else "cli:trailers-ok"] else [])
+      | .response _ => ["cli:response"] ++ (if m.trl.isSome && showBody then [if body.failed then "cli:trailers-bad" else "cli:trailers-ok"] else []) ++
+          (if !m.tail.isEmpty && showBody then ["cli:tail"] else []) ++ (if m.nest > 0 && showBody then ["cli:nested"] else []) ++
+          (if rr > 0 && showBody then ["cli:read-again"] else [])
     let obs : CliObs := { stop := wordArg impl "stop", ok := implView.startsWith "ok", view := implView }
+    let bodyShown := obs.ok && showBody && (implView.splitOn " b=").length == 2
     let fails := clientMonitors (toMsg lim m) obs ++
-      trailerMonitors "response" lim (m.trl.map fun t => (m.tenc, t)) (obs.ok && showBody && (implView.splitOn " b=").length == 2)
-        (wordArg implView "rerr" == "1") (wordArg implView "t")
+      trailerMonitors "response" lim (m.trl.map fun t => (m.tenc, t)) bodyShown
+        (wordArg implView "rerr" == "1") (wordArg implView "t") (!m.tail.isEmpty) ++
+      stickyMonitors "response" (m.trl.map fun t => (m.tenc, t)) bodyShown (againOf implView) (wordArg implView "t")
     (model, tags, fails)
 
 /-! ## conc -/
 
 structure PConc where
+  /-- 0: none; k: the k-th write to the stream fails -/
+  ef : Nat := 0
   at_ : Nat
   gz : Bool
   c : ConcReq
 
 def parseConc (p : String) : PConc :=
   let w := words p
-  { at_ := natOfS (argOf w "at"), gz := argOf w "gz" == "1",
+  { ef := natOfS (argOf w "ef"), at_ := natOfS (argOf w "at"), gz := argOf w "gz" == "1",
     c := { method := unhx (argOf w "m"), host := unhx (argOf w "host"), path := unhx (argOf w "path"), x := unhx (argOf w "x") } }
 
 /-- the request as net/http builds it from the op (`http.NewRequest(m, "https://"+host+path, nil)` + X-Id) -/
@@ -225,18 +275,79 @@ def concStep (parts : List String) (impl : String) : StepOut :=
   let ps := parts.map parseConc
   let blocks : List (Except WErr (List (List Nat × List Nat))) := ps.map fun p => encodeHeaders Uquic.Gen.H3Fields.defaultUserAgent (concWReq p)
   -- the lock model: whatever the interleaving, writer i emits block i (ReqLock.owner is the proved statement)
-  let emitted := Uquic.Model.H3.ReqLock.emittedBlocks ps.length (ps.map (·.at_))
-  let model := " | ".intercalate (emitted.map fun j => match blocks.getD j (.error .host) with
+  -- with injected write errors: the calls take effect one after the other (ReqLockFault); a failed call
+  -- leaves nothing behind (failed_request_leaves_writer_clean)
+  let faulty := ps.any (·.ef != 0)
+  let emitted := if faulty then Uquic.Model.H3.ReqLockFault.emittedBlocks ps.length (ps.map (·.ef))
+    else Uquic.Model.H3.ReqLock.emittedBlocks ps.length (ps.map (·.at_))
+  let model := " | ".intercalate (emitted.map fun j =>
+    if j == ps.length + 1 then "E:other(verif: injected write error)" else
+    match blocks.getD j (.error .host) with
     | .ok fs => ("ok " ++ " ".intercalate (fs.map (fmtFieldTok []))).trimAsciiEnd.toString
     | .error e => e.text)
   let implParts := impl.splitOn " | "
   let fails := (ps.zipIdx.flatMap fun (p, i) =>
     let ip := implParts.getD i ""
     let got := if ip.startsWith "ok" then some (parseFieldToks ((words ip).drop 1)).1 else none
-    concMonitors i p.c got)
+    -- a request whose write was made to fail has nothing to show
+    if p.ef != 0 then [] else concMonitors i p.c got)
   let interleaved := ps.any (fun p => p.at_ < 2)
   { model := model, tags := ["conc"] ++ (if interleaved then ["conc:interleaved"] else []) ++ (if ps.length > 2 then ["conc:3"] else []) ++
-      (if ps.any (·.gz) then ["conc:gzip"] else []), fails := fails }
+      (if ps.any (·.gz) then ["conc:gzip"] else []) ++ (if faulty then ["conc:write-error"] else []), fails := fails }
+
+/-! ## rsp -/
+
+open Uquic.Model.H3.RespFault in
+def parseAct (a : String) : Option Act :=
+  if a == "fl" then some .flush
+  else if a == "dl1" then some (.deadline true)
+  else if a == "dl0" then some (.deadline false)
+  else if a == "st" then some .setTrailer
+  else if a.startsWith "wh" then (a.drop 2).toString.toNat?.map .writeHeader
+  else if a.startsWith "w" then (a.drop 1).toString.toNat?.map .write
+  else none
+
+def rspDate : List Nat := B "Mon, 01 Jan 2024 00:00:00 GMT"
+
+open Uquic.Model.H3.RespFault in
+def fmtRespFrame (id : List Nat) (tr : Bool) : Frame → String
+  | .hdr st cl =>
+    -- responseWriter.writeHeader: :status, then the header map (lower-cased keys); printed sorted by name
+    let fs : List (List Nat × List Nat) :=
+      [(B ":status", B (toString st))] ++ (match cl with | some n => [(B "content-length", B (toString n))] | none => []) ++
+      [(B "content-type", B "text/plain"), (B "date", rspDate)] ++ (if tr then [(B "trailer", B "X-T")] else []) ++ [(B "x-id", id)]
+    s!"H{st}:" ++ ";".intercalate (fs.map fun f => hx f.1 ++ "=" ++ hx f.2)
+  | .data n => s!"D{n}"
+  | .trl => "H-:" ++ hx (B "x-t") ++ "=" ++ hx (B "tv-" ++ id)
+
+open Uquic.Model.H3.RespFault in
+def fmtOut : Act → Out → String
+  | .write _, .wrote n => toString n
+  | .flush, .unit => "ok"
+  | _, .err => "E"
+  | _, _ => "-"
+
+open Uquic.Model.H3.RespFault in
+def rspPart (i : Nat) (p : String) (impl : String) : String × List String × List Fail :=
+  let w := words p
+  let id := unhx (argOf w "id")
+  let tr := argOf w "tr" == "1"
+  let a := argOf w "a"
+  let acts := (if a == "" then [] else a.splitOn ",").filterMap parseAct
+  let (s, outs) := serve .markAfter acts
+  let o := if acts.isEmpty then "-" else ",".intercalate ((acts.zip outs).map fun (a, o) => fmtOut a o)
+  let wire := if s.wire.isEmpty then "-" else ",".intercalate (s.wire.map (fmtRespFrame id tr))
+  let model := s!"o={o} w={wire} end=eof"
+  let expiredAtEnd := (handler .markAfter {} acts).1.expired
+  let faulted := acts.contains (.deadline true)
+  let tags := ["rspw"] ++ (if faulted then ["rspw:deadline"] else []) ++ (if outs.contains .err then ["rspw:failed-call"] else []) ++
+    (if faulted && !expiredAtEnd then ["rspw:recovered"] else []) ++ (if s.wire.contains .trl then ["rspw:trailers"] else []) ++
+    (if s.wire.any (fun f => match f with | .hdr st _ => st < 200 | _ => false) then ["rspw:interim"] else []) ++
+    (if s.wire.isEmpty then ["rspw:nothing-sent"] else [])
+  -- ghost state from the script only: is the deadline expired when the handler returns?
+  let endsWritable := (acts.foldl (fun e a => match a with | .deadline x => x | _ => e) false) == false
+  let fails := respMonitors i endsWritable id (parseWire (wordArg impl "w"))
+  (model, tags, fails)
 
 /-! ## the driver -/
 
@@ -249,14 +360,20 @@ def step (s : St) (op impl : String) : St × StepOut :=
   let msgs := parts.drop 1
   let implParts := impl.splitOn " | "
   match head with
-  | ["srv", l] =>
+  | "srv" :: l :: more =>
     let lim := intOf (l.drop 4).toString
-    let rs := msgs.zipIdx.map fun (p, i) => srvPart lim (parsePart p) (implParts.getD i "")
+    let rr := natOfS (argOf more "rr")
+    -- only the consumer of the LAST message reads on
+    let rs := msgs.zipIdx.map fun (p, i) => srvPart lim (if i + 1 == msgs.length then rr else 0) (parsePart p) (implParts.getD i "")
     (s, { model := " | ".intercalate (rs.map (·.1)), tags := ["srv"] ++ rs.flatMap (·.2.1), fails := rs.flatMap (·.2.2) })
-  | ["cli", l] =>
+  | "cli" :: l :: more =>
     let lim := intOf (l.drop 4).toString
-    let rs := msgs.zipIdx.map fun (p, i) => cliPart lim (parsePart p) (implParts.getD i "")
+    let rr := natOfS (argOf more "rr")
+    let rs := msgs.zipIdx.map fun (p, i) => cliPart lim (if i + 1 == msgs.length then rr else 0) (parsePart p) (implParts.getD i "")
     (s, { model := " | ".intercalate (rs.map (·.1)), tags := ["cli"] ++ rs.flatMap (·.2.1), fails := rs.flatMap (·.2.2) })
+  | ["rsp"] =>
+    let rs := msgs.zipIdx.map fun (p, i) => rspPart i p (implParts.getD i "")
+    (s, { model := " | ".intercalate (rs.map (·.1)), tags := rs.flatMap (·.2.1), fails := rs.flatMap (·.2.2) })
   | ["conc"] => (s, concStep msgs impl)
   | _ => (s, { model := "bad-op" })
 
